@@ -63,9 +63,14 @@ class _NoFold(Exception):
 
 
 def fold(e, env):
-    """Constant-fold a pure expression over constants and env-bound names."""
+    """Constant-fold a pure expression over constants and env-bound names.  `env` may also bind whole
+    expressions by their normalised text (e.g. 'path == array.path': True)."""
     if isinstance(e, ast.Constant):
         return e.value
+    if isinstance(e, (ast.Compare, ast.BoolOp, ast.UnaryOp, ast.BinOp)) and env:
+        k = ' '.join(ast.unparse(e).split())
+        if k in env:
+            return env[k]
     if isinstance(e, ast.Name):
         if e.id in env:
             return env[e.id]
